@@ -193,6 +193,42 @@ pub fn encode_iter_hint_written(elem: &Ty, xs: &[Val], lo: usize, hi: Option<usi
     (r.map(|_| ctx.into_output()), written)
 }
 
+/// deduplicated strings written one by one, then a run of them through `serialize_iterator` from an iterator with the
+/// size hint (lo, hi), then more of them one by one: all through ONE context. Returns the bytes and what a reader gets
+/// back from them (three groups), reading the middle group as Vec<DeduplicatedString>.
+#[allow(clippy::type_complexity)]
+pub fn dedup_around_iterator(before: &[String], inner: &[String], after: &[String], lo: usize, hi: Option<usize>) -> Result<(Vec<u8>, Result<(Vec<String>, Vec<String>, Vec<String>), ErrInfo>), ErrInfo> {
+    use desert::{BinaryDeserializer, BinarySerializer, DeduplicatedString as DS};
+    live::reset_tls();
+    let mut ctx = desert::SerializationContext::new(Vec::new());
+    let e = |x: desert::Error| errinfo(&x);
+    for s in before {
+        DS(s.clone()).serialize(&mut ctx).map_err(e)?;
+    }
+    let items: Vec<DS> = inner.iter().map(|s| DS(s.clone())).collect();
+    let mut it = Inexact(items.iter(), lo, hi);
+    desert::serialize_iterator(&mut it, &mut ctx).map_err(e)?;
+    for s in after {
+        DS(s.clone()).serialize(&mut ctx).map_err(e)?;
+    }
+    let bytes = ctx.into_output();
+    let back = (|| {
+        let mut dc = desert::DeserializationContext::new(&bytes);
+        let mut b = Vec::new();
+        for _ in before {
+            b.push(DS::deserialize(&mut dc)?.0);
+        }
+        let m: Vec<String> = Vec::<DS>::deserialize(&mut dc)?.into_iter().map(|d| d.0).collect();
+        let mut a = Vec::new();
+        for _ in after {
+            a.push(DS::deserialize(&mut dc)?.0);
+        }
+        Ok::<_, desert::Error>((b, m, a))
+    })()
+    .map_err(e);
+    Ok((bytes, back))
+}
+
 /// iterator adaptor that admits it does not know its length
 struct Inexact<I>(I, usize, Option<usize>);
 impl<I: Iterator> Iterator for Inexact<I> {
